@@ -47,7 +47,7 @@ TEXT = {
         "note": "Gaps between updates are bounded by 1e5 s (a ~292-year gap overflows the duration conversion; recorded as out of scope). MinInt64 offsets are exempt from 'by exactly the offset'.",
     },
     "C06": {
-        "technique": "model-based stateful property testing (rapid state machine) of the real request handler and transmit-timestamp update through the verif hooks, with a registered fake clock; oracle = history model independent of the store's replacement policy, checked against a pre-call snapshot of the real store",
+        "technique": "model-based stateful property testing (rapid state machine) of the real request handler and transmit-timestamp update through the verif hooks, with a registered fake clock; oracle = history model independent of the store's replacement policy, checked against a pre-call snapshot of the real store; plus an eviction-isolation sub-check at the store's capacity (2^20 clients)",
         "level": "Generated search over request/update histories of 2..5 clients (request kinds, colliding/decreasing receive times, clock before/at/after the receive time, delayed/lost/early kernel timestamps, 2036 era base). Exploration: ~10^5 steps quick, ~10^7 thorough.",
         "note": "Layer 1 (handler) only reaches the code through core/server/hooks_verif.go (build tag verif, add-only). Updates for an exchange whose (client, rx) key was later reused are not issued. Found and repaired: txt <= rxt recorded when the clock reads earlier than the receive time (fix 3015780).",
     },
@@ -77,14 +77,14 @@ TEXT = {
         "note": "TLS only (QUIC/SCION key exchange not exercised); certificate validation is disabled as in the project's insecure-skip-verify configuration; warning records and AEAD lists with several ids are not judged. Found and repaired P8 (375c2ec).",
     },
     "C11": {
-        "technique": "model-based stateful property testing (rapid): generated loss patterns between the real NTS-enabled IPClient and the real IP listener through an inspecting relay; oracle = pool-level model plus an independent extension-field walker and miscreant AES-SIV on every datagram on the wire",
+        "technique": "model-based stateful property testing (rapid): generated loss patterns between the real NTS-enabled IPClient and the real IP listener through an inspecting relay; oracle = pool-level model plus an independent extension-field walker and miscreant AES-SIV on every datagram on the wire; plus harness-sealed requests of shapes the project's client never builds (identifier 32..300 bytes, 0..12 placeholders) sent to the listener, replies judged for size, authenticity and cookie count = as many as fit",
         "level": "Generated search over sequences of up to 40 exchanges with runs of up to 10 consecutive losses (every pool level 8..1, exhaustion and re-keying). Exploration.",
         "note": "Cookies are exactly this project's (sealed by ServerCookie.EncryptWithNonce under the provider shared with the listener). Key rotation between exchanges is covered by C12. Found and repaired P2 (a656d56) and P3 (43dc11b).",
     },
     "C05": {
-        "technique": "property-based testing (rapid) with a fault-injecting server model: scripts of 1..3 mutated/forged replies (header field mutations, NTS extension-field and key mutations, wrong source) delivered to the real IPClient after a real key exchange; oracle = the statement's acceptance predicate evaluated independently on every datagram sent (own NTS walker + miscreant) and offset attribution via per-datagram clock offsets >= 2 s apart",
+        "technique": "property-based testing (rapid) with a fault-injecting server model: scripts of 1..3 mutated/forged replies (header field mutations, NTS extension-field and key mutations, wrong source) delivered to the real IPClient after a real key exchange, and to the real SCIONClient through a front that wraps each payload into a SCION reply which is genuine, harmlessly varied or wrong in exactly one address part; oracle = the statement's acceptance predicate evaluated independently on every datagram sent (own NTS walker + miscreant) and offset attribution via per-datagram clock offsets >= 2 s apart",
         "level": "Generated search over (auth mode, interleaved mode, warm-up, mutation kind, field, source, position) - 500 scripted exchanges quick, tens of thousands thorough. Exploration.",
-        "note": "IP transport (SCION source/destination and SPAO checks belong to C13). Datagrams from another port of the queried address are not judged. An acceptable datagram hidden behind junk may legitimately be skipped (only soundness of acceptance and completeness for a lone genuine reply are asserted).",
+        "note": "IP and SCION transport (packet authenticators over SCION belong to C13; NTS over SCION needs a QUIC key exchange and is not generated). A lone genuine reply that is not accepted under the short scripted deadline is re-tried with a generous one before it counts. Datagrams from another port of the queried address are not judged. An acceptable datagram hidden behind junk may legitimately be skipped (only soundness of acceptance and completeness for a lone genuine reply are asserted).",
     },
     "C13": {
         "technique": "property-based testing (rapid) over loopback against the real SCION listener and client with USE_MOCK_KEYS: generated SCION packets (payload kind, address families, ISD-AS, traffic class, flow id, path shape and position, extensions, authenticator variants; client DSCP; listeners with DSCP 0 and 46) with sentinel-delimited reply collection; oracle = independently recomputed SPAO MAC over the packet as received (spao library), independently computed path reversal, address/port exchange, payload echo, forwarding predicate; end-to-end exchanges through a byte-flipping relay",
@@ -92,7 +92,7 @@ TEXT = {
         "note": "Two key set-ups: USE_MOCK_KEYS (all-zero host-host key; wrong key = mutated MAC/covered byte) and a harness-provided fake SCION daemon (gRPC) whose DRKeys depend on protocol, both ISD-ASes and both hosts (wrong key = the genuine key of other parameters; exercises the listener's key cache). scionproto slayers/spao/generic deriver are trusted. EPIC paths and the panic-inducing inputs (P9) are outside this generator (C08). Found and repaired: replies to one-hop-path requests carried the wrong path type (5d5f48f); MeasureClockOffsetSCION reported offset 0 without error when every path failed (3b20f61).",
     },
     "C15": {
-        "technique": "property-based testing with scripted randomness (crypto/rand.Reader replaced by rapid-drawn words): pointwise characterisation of RandIntn, validity of Sample via replay of its pick calls, exhaustive enumeration of all draw tuples for 0<=k<=n<=7 (exact uniformity over subsets); rapid state machine over multipath measurement rounds of the real SCION clients against per-path harness time servers",
+        "technique": "property-based testing with scripted randomness (crypto/rand.Reader replaced by rapid-drawn words): pointwise characterisation of RandIntn, validity of Sample via replay of its pick calls, exhaustive enumeration of all draw tuples for 0<=k<=n<=7 (exact uniformity over subsets); rapid state machine over multipath measurement rounds of the real SCION clients against per-path harness time servers that answer, stay silent or refuse at once",
         "level": "Generated search (10^5 RandIntn cases, 3*10^4 Sample cases, ~1500 measurement rounds quick) plus a complete enumeration of the small-size sample space. Exploration with an exhaustive sub-check.",
         "note": "Uniformity for large n is argued from the pointwise RandIntn characterisation (result = word mod n, only words <= 2^32 mod n rejected) plus the exhaustive small cases, not measured statistically. Duplicate fingerprints are not generated. Found and repaired: all-paths-failed round returned offset 0 without error (3b20f61).",
     },
